@@ -93,6 +93,26 @@ func mustPassGuard2(fn *ssa.Function, target func(ssa.Instruction) bool, guard f
 				return false, append([]ssa.Instruction{g}, wit...)
 			}
 		}
+		// the guard was evaluated, but is the target reached before its result is branched on at all?
+		// (a test that only happens after the effect guards nothing.) Every path from the guard to the
+		// target must take one of the wanted edges.
+		good := t
+		if !want {
+			good = f
+		}
+		if len(good) > 0 {
+			blk := map[edgeKey]bool{}
+			for k, v := range assume {
+				blk[k] = v
+			}
+			for _, e := range good {
+				blk[e] = true
+			}
+			gg := g
+			if found, wit := (pathQuery{fn: fn, target: target, avoid: func(in ssa.Instruction) bool { return in != gg && guard(in) }, blocked: blk}).find(posOf(g)); found {
+				return false, append([]ssa.Instruction{g}, wit...)
+			}
+		}
 	}
 	return true, nil
 }
